@@ -65,7 +65,19 @@ type history struct {
 	events []event
 	s      atomic.Pointer[sched.Sched]
 	pid    atomic.Pointer[actor.PID]
-	ps     atomic.Int32
+	ps     atomic.Int32 // PostStop runs started
+	psDone atomic.Int32 // PostStop runs finished
+	dec    atomic.Int32 // passivation decisions observed
+}
+
+// settle waits until every passivation that was decided has run its PostStop (the manager goroutine may be mid-way when
+// a history ends), so that the End line describes a quiescent actor.
+func (h *history) settle(d time.Duration) {
+	deadline := time.Now().Add(d)
+	for h.psDone.Load() < h.dec.Load() && time.Now().Before(deadline) {
+		time.Sleep(time.Millisecond)
+	}
+	time.Sleep(2 * time.Millisecond)
 }
 
 func (h *history) ms(t time.Time) int { return int(t.Sub(h.epoch) / time.Millisecond) }
@@ -130,6 +142,7 @@ func (a *testActor) PostStop(*actor.Context) error {
 	a.h.add("psenter", 0, time.Now(), int(sched.Gid()%1000000), 0, "")
 	a.h.yield("ps.exit", 0)
 	a.h.add("psexit", 0, time.Now(), int(sched.Gid()%1000000), 0, "")
+	a.h.psDone.Add(1)
 	return nil
 }
 
@@ -147,6 +160,10 @@ func observe(h *history, pid *actor.PID) sched.Observer {
 			h.add("pop", 0, time.Now(), 0, 0, point)
 		case "pm.register":
 			h.add("register", 0, time.Now(), 0, 0, "")
+		case "turn.begin":
+			if a == 0 { // a dispatcher turn starts: runTurn samples its clock right after this hook
+				h.add("turnbegin", 0, time.Now(), 0, 0, "")
+			}
 		case "pv.locked":
 			running, stopping, suspended, paused, _, _ := actor.VerifPassivationFlags(pid)
 			f := 0
@@ -162,6 +179,7 @@ func observe(h *history, pid *actor.PID) sched.Observer {
 			if paused {
 				f |= 8
 			}
+			h.dec.Add(1)
 			h.add("decision", 0, time.Now(), f, 0, "")
 		}
 	}
@@ -348,14 +366,15 @@ func (r *replayer) run(bi int, b behaviour) {
 				default:
 					m = &Msg{ID: i + 1, Boom: kind == "boom"}
 				}
+				id := i + 1
+				if ctl {
+					id = 0
+				}
+				h.add("tellstart", id, time.Now(), 0, 0, kind)
 				err := actor.Tell(ctx, pid, m)
 				ok := 0
 				if err == nil {
 					ok = 1
-				}
-				id := i + 1
-				if ctl {
-					id = 0
 				}
 				h.add("tell", id, time.Now(), ok, 0, kind)
 			}
@@ -616,7 +635,7 @@ func (r *replayer) run(bi int, b behaviour) {
 	}
 	s.FreeRun()
 	s.Join(5 * time.Second)
-	time.Sleep(5 * time.Millisecond)
+	h.settle(3 * time.Second)
 	running := 0
 	if pid.IsRunning() {
 		running = 1
@@ -709,12 +728,25 @@ func stress(sys actor.ActorSystem, parent *actor.PID, nactors, tms, slack int, s
 			for j, g := range gaps {
 				time.Sleep(g)
 				if j == pauseAt {
-					_ = actor.Tell(ctx, pid, new(actor.PausePassivation))
-					h.add("tell", 0, time.Now(), 1, 0, "pause")
+					tellCtl := func(kind string, m any) {
+						h.add("tellstart", 0, time.Now(), 0, 0, kind)
+						err := actor.Tell(ctx, pid, m)
+						ok := 0
+						if err == nil {
+							ok = 1
+						}
+						h.add("tell", 0, time.Now(), ok, 0, kind)
+					}
+					tellCtl("pause", new(actor.PausePassivation))
+					// a message told after the pause: once its handler runs the pause has been processed
+					h.add("tellstart", 50+j, time.Now(), 0, 0, "m")
+					if err := actor.Tell(ctx, pid, &Msg{ID: 50 + j}); err == nil {
+						h.add("tell", 50+j, time.Now(), 1, 0, "m")
+					}
 					time.Sleep(resumeAfter)
-					_ = actor.Tell(ctx, pid, new(actor.ResumePassivation))
-					h.add("tell", 0, time.Now(), 1, 0, "resume")
+					tellCtl("resume", new(actor.ResumePassivation))
 				}
+				h.add("tellstart", j+1, time.Now(), 0, 0, "m")
 				err := actor.Tell(ctx, pid, &Msg{ID: j + 1, Work: work})
 				ok := 0
 				if err == nil {
@@ -730,6 +762,7 @@ func stress(sys actor.ActorSystem, parent *actor.PID, nactors, tms, slack int, s
 	wg.Wait()
 	time.Sleep(2*T + 200*time.Millisecond)
 	for _, r := range recs {
+		r.h.settle(3 * time.Second)
 		running := 0
 		if r.pid.IsRunning() {
 			running = 1
